@@ -46,8 +46,8 @@ DOCUMENTED = [0x05030000, 0x05040000, 0x05040001, 0x05040002, 0x05040003, 0x0504
 
 def plan(tier, seed):
     n = 8
-    shards = [{"kind": "server", "ods": 4 if tier == "quick" else 30, "cs": seed * 100 + i} for i in range(n)]
-    shards += [{"kind": "client", "random_codes": 600 if tier == "quick" else 12000, "cs": seed * 100 + 50 + i} for i in range(n)]
+    shards = [{"kind": "server", "ods": 4 if tier == "quick" else 100, "cs": seed * 100 + i} for i in range(n)]
+    shards += [{"kind": "client", "random_codes": 600 if tier == "quick" else 40000, "cs": seed * 100 + 50 + i} for i in range(n)]
     return shards
 
 
